@@ -46,7 +46,7 @@ def one(desc, argv_opts, code, cls, args, overwrite=False, ext='.p8'):
     src = os.path.join(work, 'c%d%s' % (n, ext))
     pfile.to_file(cart(code), src)
     before = open(src, 'rb').read()
-    out = src if overwrite and ext == '.p8' else src[:-len(ext)] + '_fmt' + ext          # (--overwrite applies to .p8 inputs only)
+    listing = set(os.listdir(work))
     try:
         rc = run([CMD] + argv_opts + [src])
     except SystemExit as e:
@@ -55,21 +55,29 @@ def one(desc, argv_opts, code, cls, args, overwrite=False, ext='.p8'):
         bad.append([desc, 'p8tool raised %s: %s' % (type(e).__name__, e)]); return
     if rc not in (0, None):
         bad.append([desc, 'p8tool returned %r' % (rc,)]); return
-    if not os.path.exists(out):
-        bad.append([desc, 'the output cart %s was not written' % os.path.basename(out)]); return
+    # the cart the command wrote: a new file next to the input (whatever it is called), or -- with --overwrite -- the input itself
+    new = sorted(set(os.listdir(work)) - listing)
+    if len(new) == 1:
+        out = os.path.join(work, new[0])
+    elif not new and overwrite:
+        out = src
+    else:
+        bad.append([desc, 'expected one output cart next to the input, found %r' % (new,)]); return
     if out != src and open(src, 'rb').read() != before:
-        bad.append([desc, 'the input cart was modified although --overwrite was not given'])
-    want, got = lib(code, cls, args), code_of(out)
-    if got.rstrip(b'\n') != want.rstrip(b'\n'):
-        bad.append([desc, 'the cart written by the command has code %r, the library call gives %r' % (got[:120], want[:120])])
+        bad.append([desc, 'the input cart was modified although the command wrote another file'])
+    got = code_of(out)
+    wants = [lib(code, cls, a) for a in (args if isinstance(args, list) else [args])]
+    if not any(got.rstrip(b'\n') == w.rstrip(b'\n') for w in wants):
+        bad.append([desc, 'the cart written by the command has code %r, the library call gives %r' % (got[:120], wants[0][:120])])
 if CMD == 'luafmt':
     for code in PROGRAMS:
-        one('luafmt (default width)', [], code, lua.LuaFormatterWriter, {'indentwidth': 2})
+        # without the option: SOME width (the statement does not fix the default)
+        one('luafmt (default width)', [], code, lua.LuaFormatterWriter, [{'indentwidth': w} for w in range(0, 9)])
         for w in (0, 1, 3, 8):
             one('luafmt --indentwidth %d' % w, ['--indentwidth', str(w)], code, lua.LuaFormatterWriter, {'indentwidth': w})
         one('luafmt --overwrite --indentwidth 4', ['--overwrite', '--indentwidth', '4'], code, lua.LuaFormatterWriter, {'indentwidth': 4}, overwrite=True)
     one('luafmt on a .p8.png cart', ['--indentwidth', '3'], PROGRAMS[0], lua.LuaFormatterWriter, {'indentwidth': 3}, ext='.p8.png')
-    one('luafmt --overwrite on a .p8.png cart', ['--overwrite'], PROGRAMS[1], lua.LuaFormatterWriter, {'indentwidth': 2}, overwrite=True, ext='.p8.png')
+    one('luafmt --overwrite on a .p8.png cart', ['--overwrite'], PROGRAMS[1], lua.LuaFormatterWriter, [{'indentwidth': w} for w in range(0, 9)], overwrite=True, ext='.p8.png')
 elif CMD == 'luamin':
     keep = os.path.join(work, 'keep.txt')
     open(keep, 'wb').write(b'# keep\nlongname\nf\n')
